@@ -184,6 +184,34 @@ func runC06(c *runCfg) error {
 		emitSession(c, lockCase(id, "corpus", cfg, stdStartup, msgs))
 		id++
 	}
+	// statements without columns, declared with a nil and with an empty (non-nil) column set: Describe is
+	// answered with NoData, never with silence; named and unnamed, described before and after Bind
+	{
+		emptyStmt := stmtT{id: 5, prog: []opT{{kind: "complete", tag: []byte("OK")}}, ret: "nil"}
+		ncfg := cfg
+		ncfg.parse = append(append([]parseEntry{}, cfg.parse...), parseEntry{query: []byte("empty"), stmts: []stmtT{emptyStmt}})
+		for _, q := range []string{"nocol", "empty"} {
+			for _, nm := range []string{"", "n"} {
+				n := []byte(nm)
+				for _, h := range [][][]byte{
+					{mParse(n, []byte(q), 0), mDescribe('S', n), mBind(n, n, nil, nil, nil), mDescribe('P', n), mExecute(n, 0), mSync()},
+					{mParse(n, []byte(q), 0), mBind(n, n, nil, nil, []int{1}), mDescribe('P', n), mDescribe('S', n), mSync(), mExecute(n, 0), mSync()},
+					{mParse(n, []byte(q), 0), mDescribe('S', n), mFlush(), mDescribe('S', n), mSync(), mQuery([]byte(q))},
+					{mQuery([]byte(q)), mParse(n, []byte(q), 0), mBind(n, n, nil, nil, nil), mExecute(n, 0), mDescribe('P', n), mSync()},
+				} {
+					emitSession(c, lockCase(id, "nocols", ncfg, stdStartup, h))
+					id++
+				}
+			}
+		}
+	}
+	// Execute with a row-count field: the portal runs to completion (no PortalSuspended exists in this server),
+	// CommandComplete follows all rows
+	for _, mr := range []uint32{1, 2, 3, 0x7fffffff, 0x80000000, 0xffffffff} {
+		emitSession(c, lockCase(id, "maxrows", cfg, stdStartup, [][]byte{mParse(nil, []byte("ok"), 0), mBind(nil, nil, nil, nil, nil),
+			mExecute(nil, mr), mExecute(nil, mr), mSync(), mBind([]byte("p"), nil, nil, nil, []int{1}), mExecute([]byte("p"), mr), mSync()}))
+		id++
+	}
 	L := 3
 	if c.tier == "thorough" {
 		L = 4
